@@ -544,6 +544,48 @@ mod verif_nx_pipeline {
         assert!(failing.is_empty(), "OB pipeline/canonical_whitespace_corners: outside verbatim regions and multi-line tokens no output line ends in blanks, there are never two consecutive blank lines and no blank line at the start of the file - for all inputs\n failing cases ({}):\n{}", failing.len(), failing.join("\n"));
     }
 
+    // C11 on inputs reported from the field, for every wrap_column 10..130: the three clauses of the property, all failing
+    // inputs collected (the best-first search with additive penalties is not monotone in the limit; see known_findings.json).
+    #[test]
+    fn verif_nx_pipeline_wrap_limit_corners() {
+        let inputs = [
+            "procedure P;\nbegin\n  Foo(aaaa, {$ifdef AAAAAAAAAAAAAAAAAAAAAAAAAAAAAAAAAAAA\n  } bbbb {$endif});\nend;\n",
+            "interface\nfunction AA(B: C): D; overload; static; deprecated;\n",
+            "type\n  TFoo = record\n  case AAAAA of\n    BBBBB: //\n        (BBBBBBB, CCCCCCC);\n  end;\n",
+            "(AAAA + BBBB + CCCC).DD := EE;\n",
+            "interface\nprocedure Apples<AAAAAAAAAAAA, BBBBBBBB: IInterface; AAAAAAA, BBBBBBBBB, CCCCCCCC: record; CC: constructor, record, class, IInterface>();\n",
+            "procedure P;\nbegin\n  Result := Alpha + Beta * (Gamma - Delta) + Epsilon.Zeta(Eta, Theta) + Iota;\nend;\n",
+            "procedure P;\nbegin\n  if (A = B) and (C <> D) or (E < F) then\n    G := H + I + J + K;\nend;\n",
+            "type\n  TFoo = class(TBar, IBaz)\n  private\n    FField: TDictionary<string, TList<Integer>>;\n  public\n    procedure Method(const A: string; var B: Integer); virtual; abstract;\n  end;\n",
+            "const\n  Table: array[0..3] of string = ('alpha', 'beta', 'gamma', 'delta');\n",
+            "procedure P;\nbegin\n  Foo(function(X: Integer): Integer begin Result := X + 1; end, Bar(Baz, Qux));\nend;\n",
+        ];
+        let mut n = 0u64;
+        let mut failing: Vec<String> = Vec::new();
+        for input in inputs {
+            let outs: Vec<(u32, String)> = (10..=130u32).map(|w| (w, fmt(leak(config(false, 2, 2, false, w, false)), input, Vec::new()).0)).collect();
+            let widest = |o: &str| o.split('\n').map(|l| l.len() as u32).max().unwrap_or(0);
+            let mut more_lines: Vec<u32> = Vec::new();
+            let mut fits_but_differs: Vec<u32> = Vec::new();
+            let mut stops_fitting: Vec<u32> = Vec::new();
+            let mut fitted_before = false;
+            for (i, (w, o)) in outs.iter().enumerate() {
+                if i > 0 && o.split('\n').count() > outs[i - 1].1.split('\n').count() { more_lines.push(*w); }
+                if outs[i + 1..].iter().any(|(_, wide)| widest(wide) <= *w && wide != o) { fits_but_differs.push(*w); }
+                let fits = widest(o) <= *w;
+                if fitted_before && !fits { stops_fitting.push(*w); }
+                fitted_before |= fits;
+                n += 1;
+            }
+            if !more_lines.is_empty() { failing.push(format!("case=wider_more_lines limits={:?} input={:?}", more_lines, input)); }
+            if !fits_but_differs.is_empty() { failing.push(format!("case=fits_but_differs limits={:?} input={:?}", fits_but_differs, input)); }
+            if !stops_fitting.is_empty() { failing.push(format!("case=stops_fitting limits={:?} input={:?}", stops_fitting, input)); }
+        }
+        println!("NX pipeline_wrap_limit_corners: {} cases", n);
+        assert!(n > 1_000, "enumeration ran");
+        assert!(failing.is_empty(), "OB pipeline/limit_clauses_corners: a wider result that fits the narrower limit is the narrower result; widening never adds lines; once every line fits it fits at every larger limit\n failing cases ({}):\n{}", failing.len(), failing.join("\n"));
+    }
+
     // C09 third clause: the line endings of the INPUT do not matter (inputs without line-spanning tokens), also for
     // malformed lines such as an unterminated literal or a comment at the end of a line
     #[test]
@@ -854,7 +896,8 @@ mod verif_nx_pipeline {
             texts.push(format!("unit U; interface {} implementation end.", d));
         }
         let mut n = 0u64;
-        let fills: [&str; 5] = ["   ", "\t", "\n", "\n      ", " \n"];
+        // a single line break may be LF, CR LF or a lone CR
+        let fills: [&str; 7] = ["   ", "\t", "\n", "\n      ", " \n", "\r\n", "\r"];
         for t in &texts {
             let words: Vec<&str> = t.split(' ').collect();
             let gaps = words.len() - 1;
